@@ -380,7 +380,11 @@ var observe = os.Getenv("VERIF_C18_OBSERVE") != ""
 // "deviation") runs cases [(k-1)*chunkSize, k*chunkSize) on the canonical schedule; deviation
 // bound 1 on a grouped scenario therefore is: every handshake of the class, each on the
 // canonical schedule. A single (sched) scenario has no chunk choice.
-func scenario(name string, cases []hcase, grouped bool) e1lib.Scenario {
+// desc: every instrumented map iteration of the execution runs in descending key order
+// (rt.SetMapDescending) - used for the classes whose oracle looks at the ORDER of the
+// refusal's version list, so that a list that is only accidentally ascending (built by
+// ranging over the responder's table without sorting) is seen.
+func scenario(name string, cases []hcase, grouped bool, desc bool) e1lib.Scenario {
 	nChunks := (len(cases) + chunkSize - 1) / chunkSize
 	rng := func(k int) (int, int) {
 		lo, hi := (k-1)*chunkSize, k*chunkSize
@@ -393,6 +397,9 @@ func scenario(name string, cases []hcase, grouped bool) e1lib.Scenario {
 		return lo, hi
 	}
 	body := func() {
+		if desc {
+			rt.SetMapDescending(true)
+		}
 		lo, hi := 0, len(cases)
 		if grouped {
 			k := rt.Choice("h:chunk", nChunks+1)
@@ -706,9 +713,16 @@ func gen(thorough bool) []e1lib.Scenario {
 	}
 	var scs []e1lib.Scenario
 	for _, name := range order {
-		s := scenario(name, groups[name], true)
+		s := scenario(name, groups[name], true, false)
 		s.MinB, s.MaxB, s.Budget = 1, 1, 900*time.Second
 		scs = append(scs, s)
+		if strings.HasSuffix(name, "|no-common-version") {
+			// the version-mismatch refusal lists the responder's versions: once with ascending,
+			// once with descending map iteration inside the implementation
+			s := scenario(name+"|map-desc", groups[name], true, true)
+			s.MinB, s.MaxB, s.Budget = 1, 1, 900*time.Second
+			scs = append(scs, s)
+		}
 	}
 	// schedules: all schedules with <= 1 deviation for structurally different handshakes
 	for _, name := range order {
@@ -724,15 +738,27 @@ func gen(thorough bool) []e1lib.Scenario {
 			continue
 		}
 		l := groups[name]
-		s := scenario("sched|"+name, []hcase{l[len(l)/2]}, false)
+		s := scenario("sched|"+name, []hcase{l[len(l)/2]}, false, false)
 		s.MinB, s.MaxB, s.Budget = 1, 1, 300*time.Second
 		scs = append(scs, s)
+		if strings.HasSuffix(name, "|no-common-version") {
+			rep := l[len(l)/2]
+			for _, h := range l { // a responder with at least two versions to list
+				if len(h.s.vs) >= 2 {
+					rep = h
+					break
+				}
+			}
+			s := scenario("sched|"+name+"|map-desc", []hcase{rep}, false, true)
+			s.MinB, s.MaxB, s.Budget = 1, 1, 300*time.Second
+			scs = append(scs, s)
+		}
 		if thorough && strings.HasSuffix(name, "|agree") && len(l) > 2 {
 			for _, r := range []struct {
 				tag string
 				h   hcase
 			}{{"#first", l[0]}, {"#last", l[len(l)-1]}} {
-				s := scenario("sched|"+name+r.tag, []hcase{r.h}, false)
+				s := scenario("sched|"+name+r.tag, []hcase{r.h}, false, false)
 				s.MinB, s.MaxB, s.Budget = 1, 1, 300*time.Second
 				scs = append(scs, s)
 			}
